@@ -36,7 +36,7 @@ LEVEL_TEXT = ("Seeded search over scenarios, exhaustive over the defect "
               "time).")
 LEVEL_NOTE = ("Trusted: interposer; EM blocks are built and RSA-encrypted "
               "with the server's public key by the harness (pow).")
-BUDGET = {"quick": 60, "thorough": 1200}
+BUDGET = {"quick": 300, "thorough": 1200}
 CHUNK = 4
 CLASSES = ["bad_first_byte", "bad_block_type", "zero_in_ps",
            "no_separator", "sep_early", "len0", "len1", "len47", "len49",
